@@ -242,6 +242,18 @@ static void finish_and_check(void)
     for (int k = 0; k < nops; k++) { sp[k].call = ops[k].call; sp[k].ret = ops[k].ret; }
     CS_CHECK(cs_linearizable(sp, nops, seq_check, NULL), "history not explained by any sequential order of the operations on a map model: %s", buf);
     cs_observe("%s", buf);
+    /* sequential epilogue: every identifier that is registered now is usable on the array and returns the value at rest (or a fresh
+     * constructed default / NULL for an empty slot) - a registry whose size bookkeeping was damaged by the concurrent registrations
+     * shows here (the library's own assertion in the resize, or a wrong value) */
+    for (int nm = 0; nm < MAXN; nm++) {
+        int id = final_id_of[nm]; if (id < 0) continue;
+        void *expect = id < final_known ? final_val[id] : NULL;
+        int before = nmade;
+        void *got = parsec_info_get(&oa, id);
+        if (expect) CS_CHECK(got == expect, "epilogue: get(%d) returns %p, the slot held %p at rest: %s", id, got, expect, buf);
+        else if (attr[nm] & A_CTOR) CS_CHECK(nmade == before + 1 && got == MADE(nmade), "epilogue: get(%d) of an empty slot with constructor returns %p: %s", id, got, buf);
+        else CS_CHECK(got == NULL, "epilogue: get(%d) of an empty slot without constructor returns %p: %s", id, got, buf);
+    }
 }
 
 static const int ATTR_STD[MAXN] = { A_CTOR | A_DTOR, A_CTOR | A_DTOR, A_DTOR, 0 };
@@ -303,6 +315,113 @@ static void s10_t1(void *a) { (void)a; do_set(2, P1); do_get(2); }
 static void s10_t2(void *a) { (void)a; do_reg(3); }
 static void scen_touch_grow_register(void) { void *pre[1] = { P3 }; setup(ATTR_STD, 3, 1, pre); cs_body_t b[] = { s10_t0, s10_t1, s10_t2 }; cs_run(3, b, NULL); finish_and_check(); }
 
+/* ------------------------------------------------------------------ GENERATED scripts (bounded-exhaustive families)
+ * The enumeration lives in check.py (c41gen.py); a script is completely described by its TEXT, which is also its scenario
+ * name and therefore stored in the replay file:
+ *     g_<P>_<ops of T0>_<ops of T1>[_<ops of T2>]                e.g.  g_A_G1_S1Rx
+ *   P   pre-state: names a,b registered (ids 0,1; both with constructor and destructor), and the object array
+ *         A  initialised after a only: slot 0 exists (empty), slot 1 needs growth (realloc path)
+ *         B  initialised before any registration: no storage at all, slots 0 and 1 need growth (calloc path)
+ *         C  initialised after a and b, slot 0 preset to P4: growth only after a new registration
+ *   ops 1..4 operations of 2 characters each, concatenated.  V(t) = the thread's own value (P1, P2, P3 for T0, T1, T2);
+ *       W(t) = the value of "the other" thread (T0: P2; T1, T2: P1)
+ *         G0 G1 Gr   get(id)                     S0 S1 Sr   set(id, V(t))
+ *         N0 N1 Nr   test_and_set(id, V(t), NULL)            V0 V1      test_and_set(id, V(t), W(t))
+ *         Rx Ry      register(first / second name that the pre-state does not contain: c (destructor only) / d (nothing))
+ *         Lx La      lookup(first fresh name) / lookup(a)
+ *       id r = the identifier returned by this thread's latest successful register (the operation is skipped when there is none).
+ * Usage contract (checked here too): set/get/test_and_set only with identifiers that are registered when the call is made:
+ * 0 and 1 (pre-state) or r after a register of the same thread. */
+#define P4 ((void *)0x456789ab88ddULL)
+#define GMAXSTEP 4
+typedef struct { char op, arg; } gstep_t;
+typedef struct { char name[64]; int pre, nthr, len[3]; gstep_t st[3][GMAXSTEP]; } gdef_t;
+#define MAXGEN 1024
+static gdef_t gdefs[MAXGEN]; static int ngdefs;
+static const gdef_t *gcur;
+static int g_parse(const char *txt, gdef_t *g, char *err, size_t elen)
+{
+    memset(g, 0, sizeof(*g));
+    if (strlen(txt) >= sizeof(g->name) || strncmp(txt, "g_", 2)) { snprintf(err, elen, "not a generated script text"); return -1; }
+    strcpy(g->name, txt);
+    const char *p = txt + 2;
+    if (*p < 'A' || *p > 'C' || p[1] != '_') { snprintf(err, elen, "bad pre-state"); return -1; }
+    g->pre = *p - 'A'; p++;
+    int t = 0;
+    while (*p == '_') {
+        p++;
+        if (t >= 3) { snprintf(err, elen, "more than 3 threads"); return -1; }
+        int n = 0, have_r = 0;
+        while (*p && *p != '_') {
+            if (n >= GMAXSTEP) { snprintf(err, elen, "more than %d operations in thread %d", GMAXSTEP, t); return -1; }
+            char op = p[0], arg = p[1];
+            int ok = 0;
+            switch (op) {
+            case 'G': case 'S': case 'N': ok = (arg == '0' || arg == '1' || arg == 'r'); break;
+            case 'V': ok = (arg == '0' || arg == '1'); break;
+            case 'R': ok = (arg == 'x' || arg == 'y'); break;
+            case 'L': ok = (arg == 'x' || arg == 'a'); break;
+            }
+            if (!ok) { snprintf(err, elen, "bad operation '%c%c'", op, arg); return -1; }
+            if (arg == 'r' && !have_r) { snprintf(err, elen, "contract: thread %d uses the identifier of a register it has not performed", t); return -1; }
+            if (op == 'R') have_r = 1;
+            g->st[t][n].op = op; g->st[t][n].arg = arg; n++; p += 2;
+        }
+        if (n < 1) { snprintf(err, elen, "thread %d has no operation", t); return -1; }
+        g->len[t] = n; t++;
+    }
+    if (*p || t < 2) { snprintf(err, elen, "trailing text or fewer than 2 threads"); return -1; }
+    g->nthr = t;
+    return 0;
+}
+static void g_body(void *a)
+{
+    int t = (int)(intptr_t)a, rid = -1;
+    static void *const V[3] = { P1, P2, P3 }, *const W[3] = { P2, P1, P1 };
+    for (int k = 0; k < gcur->len[t]; k++) {
+        char op = gcur->st[t][k].op, arg = gcur->st[t][k].arg;
+        int id = arg == 'r' ? rid : arg - '0';
+        switch (op) {
+        case 'G': if (id >= 0) do_get(id); break;
+        case 'S': if (id >= 0) do_set(id, V[t]); break;
+        case 'N': if (id >= 0) do_tas(id, V[t], NULL); break;
+        case 'V': do_tas(id, V[t], W[t]); break;
+        case 'R': { int r = do_reg(arg == 'x' ? 2 : 3); if (r >= 0) rid = r; } break;
+        case 'L': do_lookup(arg == 'x' ? 2 : 0); break;
+        }
+    }
+}
+static void g_run(const gdef_t *g)
+{
+    static void *const preC[2] = { P4, NULL };
+    switch (g->pre) {
+    case 0: setup(ATTR_STD, 2, 1, NULL); break;
+    case 1: setup(ATTR_STD, 2, 0, NULL); break;
+    default: setup(ATTR_STD, 2, 2, preC); break;
+    }
+    gcur = g;
+    cs_body_t b[3] = { g_body, g_body, g_body }; void *args[3] = { (void *)0, (void *)1, (void *)2 };
+    cs_run(g->nthr, b, args);
+    finish_and_check();
+}
+/* cosched scenarios carry a parameterless run(): one trampoline per slot of gdefs[] */
+#define G1(i) static void grun_##i(void) { g_run(&gdefs[0x##i]); }
+#define G16(p) G1(p##0) G1(p##1) G1(p##2) G1(p##3) G1(p##4) G1(p##5) G1(p##6) G1(p##7) G1(p##8) G1(p##9) G1(p##a) G1(p##b) G1(p##c) G1(p##d) G1(p##e) G1(p##f)
+#define G256(p) G16(p##0) G16(p##1) G16(p##2) G16(p##3) G16(p##4) G16(p##5) G16(p##6) G16(p##7) G16(p##8) G16(p##9) G16(p##a) G16(p##b) G16(p##c) G16(p##d) G16(p##e) G16(p##f)
+G256(0) G256(1) G256(2) G256(3)
+#define N1(i) grun_##i,
+#define N16(p) N1(p##0) N1(p##1) N1(p##2) N1(p##3) N1(p##4) N1(p##5) N1(p##6) N1(p##7) N1(p##8) N1(p##9) N1(p##a) N1(p##b) N1(p##c) N1(p##d) N1(p##e) N1(p##f)
+#define N256(p) N16(p##0) N16(p##1) N16(p##2) N16(p##3) N16(p##4) N16(p##5) N16(p##6) N16(p##7) N16(p##8) N16(p##9) N16(p##a) N16(p##b) N16(p##c) N16(p##d) N16(p##e) N16(p##f)
+static void (*const GRUNS[])(void) = { N256(0) N256(1) N256(2) N256(3) };
+_Static_assert(sizeof(GRUNS) / sizeof(GRUNS[0]) == MAXGEN, "one trampoline per generated slot");
+static int g_add(const char *txt)
+{
+    char err[160];
+    if (ngdefs >= MAXGEN) { fprintf(stderr, "c41: more than %d generated scripts in one invocation\n", MAXGEN); return -1; }
+    if (g_parse(txt, &gdefs[ngdefs], err, sizeof(err))) { fprintf(stderr, "c41: generated script '%s' rejected: %s\n", txt, err); return -1; }
+    ngdefs++; return 0;
+}
+
 static cs_scenario_t scenarios[] = {
     { "set_get_vs_register_grow", scen_set_grow, 0 },
     { "grow_from_empty", scen_grow_from_empty, 0 },
@@ -321,12 +440,30 @@ static cs_scenario_t scenarios[] = {
 #define NCHECKED 9
 int main(int argc, char **argv)
 {
-    int n = NCHECKED, na = 0; char *av[64];
+    int n = NCHECKED, na = 0; char *av[64]; const char *replay = NULL;
+    static char filebuf[1 << 17];
     for (int i = 0; i < argc && na < 63; i++) {
         if (!strcmp(argv[i], "--cap3") && i + 1 < argc) { for (int k = FIRST3; k < NCHECKED; k++) scenarios[k].max_bound = atoi(argv[i + 1]); i++; }
         else if (!strcmp(argv[i], "--observe")) n = sizeof(scenarios) / sizeof(scenarios[0]);
-        else av[na++] = argv[i];
+        else if (!strcmp(argv[i], "--gen") && i + 1 < argc) { if (g_add(argv[++i])) return 2; }
+        else if (!strcmp(argv[i], "--gen-file") && i + 1 < argc) {      /* one script text per line */
+            FILE *f = fopen(argv[++i], "r"); if (!f) { perror(argv[i]); return 2; }
+            size_t k = fread(filebuf, 1, sizeof(filebuf) - 1, f); fclose(f); filebuf[k] = 0;
+            for (char *q = strtok(filebuf, "\n"); q; q = strtok(NULL, "\n")) if (*q && g_add(q)) return 2;
+        }
+        else { if (!strcmp(argv[i], "--replay") && i + 1 < argc) replay = argv[i + 1]; av[na++] = argv[i]; }
     }
     av[na] = NULL;
+    /* the replay file of a generated script carries the script text as its scenario name: rebuild the script from it */
+    if (replay) {
+        static char rb[1 << 16]; FILE *f = fopen(replay, "r");
+        if (f) { size_t k = fread(rb, 1, sizeof(rb) - 1, f); fclose(f); rb[k] = 0;
+            char *q = strstr(rb, "\"scenario\":\"g_"); if (q) { q += 12; char *e = strchr(q, '"'); if (e) { *e = 0; if (g_add(q)) return 2; printf("generated script %s (rebuilt from the scenario text of the replay file)\n", q); } } }
+    }
+    if (ngdefs) {       /* generated scripts replace the hand-written ones in this invocation */
+        cs_scenario_t *sc = calloc(ngdefs, sizeof(*sc));
+        for (int i = 0; i < ngdefs; i++) { sc[i].name = gdefs[i].name; sc[i].run = GRUNS[i]; }
+        return cs_main(na, av, "C41", sc, ngdefs, NULL);
+    }
     return cs_main(na, av, "C41", scenarios, n, NULL);
 }
